@@ -68,6 +68,23 @@ func compactInputs(s *scn.Scenario) {
 	s.Inputs = ins
 }
 
+// fixCLIPaths keeps only the path arguments that still contain a file.
+func fixCLIPaths(s *scn.Scenario) {
+	if len(s.CLIPaths) == 0 {
+		return
+	}
+	var keep []string
+	for _, p := range s.CLIPaths {
+		for _, in := range s.Inputs {
+			if strings.HasPrefix(in.Path, p+"/") {
+				keep = append(keep, p)
+				break
+			}
+		}
+	}
+	s.CLIPaths = keep
+}
+
 // freeSchedule turns a candidate whose structure changed back into a generated
 // schedule (the tape no longer lines up); a replayed tape is tried first.
 func withSchedules(s *scn.Scenario, orig scn.Sched) []*scn.Scenario {
@@ -225,7 +242,34 @@ func (m *minimiser) minimise(s0 *scn.Scenario) *scn.Scenario {
 				}
 			}
 		}
-		if cur.Kind == "B" && cur.Workers > 1 {
+		if cur.Kind == "C" {
+			for i := len(cur.Inputs) - 1; i >= 0 && len(cur.Inputs) > 1; i-- {
+				if i >= len(cur.Inputs) {
+					continue
+				}
+				c := clone(cur)
+				c.Inputs = append(c.Inputs[:i], c.Inputs[i+1:]...)
+				fixCLIPaths(c)
+				if try(c) {
+					changed = true
+				}
+			}
+			for i := len(cur.CLIFlags) - 1; i >= 0; i-- {
+				if i >= len(cur.CLIFlags) || (i > 0 && cur.CLIFlags[i-1] == "-phpver") {
+					continue
+				}
+				c := clone(cur)
+				if c.CLIFlags[i] == "-phpver" {
+					c.CLIFlags = append(c.CLIFlags[:i], c.CLIFlags[i+2:]...)
+				} else {
+					c.CLIFlags = append(c.CLIFlags[:i], c.CLIFlags[i+1:]...)
+				}
+				if try(c) {
+					changed = true
+				}
+			}
+		}
+		if (cur.Kind == "B" || cur.Kind == "C") && cur.Workers > 1 {
 			c := clone(cur)
 			c.Workers--
 			if try(c) {
@@ -345,6 +389,7 @@ func reportViolation(b *build, prop string, v violRun) (string, bool) {
 		return "", false
 	}
 	// final confirmation in a fresh process
+	used := m.tried
 	m.tried = 0
 	if ok, _ := m.fails(min); !ok {
 		min, minimised = v.scn, false
@@ -366,7 +411,7 @@ func reportViolation(b *build, prop string, v violRun) (string, bool) {
 		return "", false
 	}
 	fmt.Printf("violation in run %d (seed %d): %s %s\n%s\nminimised with %d candidate runs: %d tasks, %d inputs (%d bytes), %d schedule decisions\n",
-		v.idx, v.scn.RunSeed, m.last.Oracle, m.last.Sig, m.last.Detail, m.tried, len(min.Tasks)+len(min.PoolTasks), len(min.Inputs), totalBytes(min), len(min.Sched.Tape))
+		v.idx, v.scn.RunSeed, m.last.Oracle, m.last.Sig, m.last.Detail, used, len(min.Tasks)+len(min.PoolTasks), len(min.Inputs), totalBytes(min), len(min.Sched.Tape))
 	return path, true
 }
 
